@@ -534,8 +534,12 @@ func exec(state bool) func(script []string, opt comp.Options) comp.Result {
 		}()
 		quietFor := func() time.Duration {
 			q := opt.Grace
-			if retry && 3*h.d+5*time.Millisecond > q {
-				q = 3*h.d + 5*time.Millisecond
+			if retry {
+				// a retry timer may be late under load: allow it three delays plus a margin on top of the grace period
+				if 3*h.d > q {
+					q = 3 * h.d
+				}
+				q += 15 * time.Millisecond
 			}
 			return q
 		}
